@@ -49,7 +49,10 @@ VSurvey(e) ==
 VPublish(e) ==
   LET ws == wr[e.w]
       goal == ToSet(e.goal)
-      want == UpdateGoal(Known(ws), C.order, C.shnums)
+      \* servers without upload permission (an expired grid-manager certificate ...) keep the shares they hold up to date but
+      \* are no candidates for shares that need a new home
+      permittedOrder == IF "denied" \in DOMAIN C THEN SelectSeq(C.order, LAMBDA s : s \notin ToSet(C.denied)) ELSE C.order
+      want == UpdateGoal(Known(ws), permittedOrder, C.shnums)
       others == {wr[x].newv : x \in WritersT \ {e.w}}
   IN IF ws.phase # "survey" THEN Rej("conf_publish_phase")
      ELSE IF C.op = "overwrite" /\ ~SeenRecoverable(ws, C.K) THEN Rej("conf_publish_without_recoverable_version")
